@@ -49,6 +49,14 @@ def _max_violation(
     # more cannot be met to 1e-6 in double precision).
     row_rtol = 1e-9
     x_abs = np.abs(np.array([values[v.name] for v in variables], dtype=float))
+    if lp_data is not None:
+        # (only while the extracted rows correspond one-to-one to the constraints)
+        n_eq = sum(1 for c in problem.constraints if c.sense == "==")
+        n_ub = len(problem.constraints) - n_eq
+        if (0 if lp_data.A_eq is None else len(lp_data.A_eq)) != n_eq or (
+            0 if lp_data.A_ub is None else len(lp_data.A_ub)
+        ) != n_ub:
+            lp_data = None
     i_ub = i_eq = 0
     worst = 0.0
     for constraint in problem.constraints:
